@@ -37,7 +37,12 @@ Fresh(cfg) == [cfg |-> cfg,
                sdCalls |-> 0,         \* Shutdown calls begun
                firstSD |-> "",        \* proc of the first Shutdown call
                shutRet |-> "no",      \* "no" | "early" (only stopped-exit Shutdowns returned nil) | "full"
-               expShut |-> FALSE,     \* exporter.Shutdown was called
+               expShut |-> FALSE,     \* exporter.Shutdown was called by a Shutdown whose context had not ended
+               expShutAny |-> FALSE,  \* exporter.Shutdown was called at all
+               cancelled |-> {},      \* procs whose context has ended (Cancel is logged before the harness cancels)
+               handedB |-> <<>>,      \* batches handed to the export buffer and not yet fully exported: sequences of ids (hook)
+               lastOffer |-> <<>>,    \* the batch TryDequeue offered last (hook)
+               pre |-> <<>>,          \* ids of lastOffer seen at the exporter BEFORE the Deq line of that dequeue was written
                logged |-> 0]          \* sum of the "dropped log records" warnings
 
 Put(f, k, v) == [x \in (DOMAIN f) \cup {k} |-> IF x = k THEN v ELSE f[x]]
@@ -45,6 +50,22 @@ Get(f, k, d) == IF k \in DOMAIN f THEN f[k] ELSE d
 SeqToSet(s) == {s[i] : i \in 1..Len(s)}
 Without(s, S) == SelectSeq(s, LAMBDA x : x \notin S)
 Known(m, id) == id \in DOMAIN m.emitted
+IsPrefix(a, b) == Len(a) <= Len(b) /\ SubSeq(b, 1, Len(a)) = a
+DropN(s, n) == SubSeq(s, n + 1, Len(s))
+(* What is handed to the export buffer -- by the poll goroutine, by a ForceFlush (also one that then gives up because    *)
+(* its context ended: the batch stays parked in the buffer) or by Shutdown -- is what the exporter gets, record for       *)
+(* record, in chunks: an Export call must be the beginning of what is left of ONE handed-over batch.  (The Deq line is    *)
+(* written after the buffer has the batch, so its first chunks may be seen at the exporter first: `pre`.)                *)
+Matching(m, ids) == {i \in 1..Len(m.handedB) : IsPrefix(ids, m.handedB[i])}
+TakeChunk(m, ids) ==
+  LET I == Matching(m, ids) IN
+  IF I # {} THEN LET i == CHOOSE x \in I : \A y \in I : x <= y
+                     rest == DropN(m.handedB[i], Len(ids)) IN
+                 [m EXCEPT !.handedB = IF rest = <<>> THEN SubSeq(@, 1, i - 1) \o SubSeq(@, i + 1, Len(@))
+                                       ELSE [@ EXCEPT ![i] = rest]]
+  ELSE IF IsPrefix(m.pre \o ids, m.lastOffer) THEN [m EXCEPT !.pre = @ \o ids]
+  ELSE m
+NotAsHanded(m, ids) == m.cfg.hooks /\ ids # <<>> /\ Matching(m, ids) = {} /\ ~IsPrefix(m.pre \o ids, m.lastOffer)
 
 (* hook-free: id can only have been overwritten if at least qcap other Emit calls may have enqueued after it *)
 MayOverwritten(m, id) == Known(m, id) /\ m.nCalled - m.emitted[id].before - 1 >= m.cfg.qcap
@@ -122,7 +143,7 @@ Step(m, e) ==
            \cup (IF e.id \in m.ignored THEN {[kind |-> "enqueued-an-ignored-record", id |-> e.id]} ELSE {})>>
     [] e.ev = "Offer" ->     \* under the queue lock, before the buffer sees them: records TryDequeue copied out and offers
          LET ids == SeqToSet(e.ids) n == m.nbatch + 1 IN
-         <<[m EXCEPT !.nbatch = n, !.batchOf = [x \in (DOMAIN @) \cup ids |-> IF x \in ids THEN n ELSE @[x]]],
+         <<[m EXCEPT !.nbatch = n, !.batchOf = [x \in (DOMAIN @) \cup ids |-> IF x \in ids THEN n ELSE @[x]], !.lastOffer = e.ids],
            IF Len(e.ids) > Len(m.inq) \/ SubSeq(m.inq, 1, Len(e.ids)) # e.ids
              THEN {[kind |-> "dequeue-not-fifo", ids |-> e.ids, queue |-> m.inq]} ELSE {}>>
     [] e.ev \in {"Deq", "QFlushed"} ->   \* under the queue lock: records taken out (TryDequeue accepted / Flush)
@@ -131,18 +152,26 @@ Step(m, e) ==
                      !.nbatch = IF e.ev = "QFlushed" THEN n ELSE @,
                      !.batchOf = IF e.ev = "QFlushed" THEN [x \in (DOMAIN @) \cup ids |-> IF x \in ids THEN n ELSE @[x]] ELSE @,
                      !.sdheld = IF e.ev = "QFlushed" THEN @ \cup ids ELSE @,
-                     !.flushed = (@ \/ e.ev = "QFlushed")],
+                     !.flushed = (@ \/ e.ev = "QFlushed"),
+                     !.handedB = IF e.ids = <<>> \/ (e.ev = "Deq" /\ Len(m.pre) >= Len(e.ids)) THEN @
+                                 ELSE Append(@, IF e.ev = "Deq" THEN DropN(e.ids, Len(m.pre)) ELSE e.ids),
+                     !.pre = IF e.ev = "Deq" THEN <<>> ELSE @],
            (IF Len(e.ids) > Len(m.inq) \/ SubSeq(m.inq, 1, Len(e.ids)) # e.ids
               THEN {[kind |-> "dequeue-not-fifo", ids |-> e.ids, queue |-> m.inq]} ELSE {})
-           \cup (IF e.ev = "QFlushed" /\ Len(e.ids) # Len(m.inq) THEN {[kind |-> "flush-left-records", queue |-> m.inq]} ELSE {})>>
+           \cup (IF e.ev = "QFlushed" /\ Len(e.ids) # Len(m.inq) THEN {[kind |-> "flush-left-records", queue |-> m.inq]} ELSE {})
+           \cup (IF e.ev = "Deq" /\ ~IsPrefix(m.pre, e.ids)
+                   THEN {[kind |-> "exported-not-as-handed-over", ids |-> m.pre, dequeued |-> e.ids]} ELSE {})>>
     [] e.ev = "ExportBegin" ->
          LET ids == SeqToSet(e.ids) late == Late(m, e.ids) IN
-         <<[m EXCEPT !.handed = @ \cup ids, !.inflight = TRUE, !.last = NewLast(m, e.ids),
+         <<[TakeChunk(m, e.ids) EXCEPT !.handed = @ \cup ids, !.inflight = TRUE, !.last = NewLast(m, e.ids),
                      !.curIds = ids],
            (IF ids \cap m.handed # {} \/ Cardinality(ids) # Len(e.ids)
               THEN {[kind |-> "exported-twice", ids |-> (ids \cap m.handed)]} ELSE {})
            \cup (IF Len(e.ids) > m.cfg.maxbatch THEN {[kind |-> "batch-too-large", n |-> Len(e.ids)]} ELSE {})
            \cup (IF e.ids = <<>> THEN {[kind |-> "empty-export"]} ELSE {})
+           \cup (IF NotAsHanded(m, e.ids)
+                   THEN {[kind |-> "exported-not-as-handed-over", ids |-> e.ids,
+                          pending |-> [i \in 1..(IF Len(m.handedB) < 3 THEN Len(m.handedB) ELSE 3) |-> m.handedB[i]]]} ELSE {})
            \cup (IF m.inflight THEN {[kind |-> "concurrent-export"]} ELSE {})
            \cup (IF m.shutRet = "full" \/ m.expShut THEN {[kind |-> "export-after-shutdown"]}
                  ELSE IF m.shutRet = "early" THEN {[kind |-> "export-after-early-shutdown-return"]} ELSE {})
@@ -160,9 +189,15 @@ Step(m, e) ==
                      !.failedIds = IF e.err # "" THEN @ \cup m.curIds ELSE @, !.curIds = {}],
            IF m.inflight THEN {} ELSE {[kind |-> "export-end-without-begin"]}>>
     [] e.ev = "ExporterShutdown" ->
-         <<[m EXCEPT !.expShut = TRUE],
-           (IF m.expShut THEN {[kind |-> "exporter-shutdown-twice"]} ELSE {})
-           \cup (IF m.inflight THEN {[kind |-> "exporter-shutdown-during-export"]} ELSE {})>>
+         \* a Shutdown whose context has ended does not wait for the export goroutine (bufferExporter.Shutdown: `case <-ctx.Done()`);
+         \* it returns an error, so nothing is promised about exports that follow (the Exporter interface allows the overlap)
+         LET forced == e.proc \in m.cancelled IN
+         <<[m EXCEPT !.expShut = (@ \/ ~forced), !.expShutAny = TRUE],
+           (IF m.expShutAny THEN {[kind |-> "exporter-shutdown-twice"]} ELSE {})
+           \cup (IF ~m.inflight THEN {}
+                 ELSE IF forced THEN {[kind |-> "obs-exporter-shutdown-during-export-context-ended"]}
+                 ELSE {[kind |-> "exporter-shutdown-during-export"]})>>
+    [] e.ev = "Cancel" -> <<[m EXCEPT !.cancelled = @ \cup {e.proc}], {}>>
     [] e.ev = "Ret" /\ e.op = "FF" ->
          LET M == Missing(m, Get(m.snap, e.proc, {})) IN
          <<m, IF e.err = "" THEN ByCause(e.proc, M, LAMBDA id : FCause(m, e.proc, id)) ELSE {}>>
@@ -173,13 +208,18 @@ Step(m, e) ==
              sole == e.proc = m.firstSD /\ m.sdCalls = 1
              stoppedExit == IF m.cfg.hooks THEN Get(m.early, e.proc, "no") # "no" ELSE ~sole IN
          <<[m EXCEPT !.shutRet = IF e.err # "" THEN @ ELSE IF ~stoppedExit THEN "full" ELSE IF @ = "no" THEN "early" ELSE @],
-           IF e.err = "" THEN ByCause(e.proc, M, LAMBDA id : SCause(m, e.proc, id, sole)) ELSE {}>>
+           (IF e.err = "" THEN ByCause(e.proc, M, LAMBDA id : SCause(m, e.proc, id, sole)) ELSE {})
+           \* "Shutdown flushes queued log records and shuts down the decorated exporter": the call that did the work -- whatever it
+           \* returns, also when its context ended on the way -- has called the exporter's Shutdown
+           \cup (IF m.cfg.hooks /\ ~stoppedExit /\ ~m.expShutAny THEN {[kind |-> "exporter-not-shut-down", proc |-> e.proc]} ELSE {})>>
     [] e.ev = "LogDropped" ->
          <<[m EXCEPT !.logged = @ + e.n],
            IF m.cfg.hooks /\ m.logged + e.n > Cardinality(m.overwritten)
              THEN {[kind |-> "dropped-overcounted", logged |-> m.logged + e.n, overwritten |-> Cardinality(m.overwritten)]} ELSE {}>>
     [] e.ev = "EndScenario" ->
-         <<m, IF e.quiescent /\ m.cfg.hooks /\ m.shutRet = "full" /\ ~(SeqToSet(m.inq) \subseteq m.raced)
-              THEN {[kind |-> "records-left-in-queue-after-shutdown", ids |-> SeqToSet(m.inq) \ m.raced]} ELSE {}>>
+         <<m, (IF e.quiescent /\ m.cfg.hooks /\ m.shutRet = "full" /\ ~(SeqToSet(m.inq) \subseteq m.raced)
+                 THEN {[kind |-> "records-left-in-queue-after-shutdown", ids |-> SeqToSet(m.inq) \ m.raced]} ELSE {})
+              \cup (IF e.quiescent /\ m.cfg.hooks /\ m.pre # <<>>
+                      THEN {[kind |-> "exported-not-as-handed-over", ids |-> m.pre, never |-> "dequeued"]} ELSE {})>>
     [] OTHER -> <<m, {}>>
 =============================================================================
